@@ -1222,6 +1222,78 @@ def d16_terms_store_what_they_are_given(chk: Check) -> None:
         raise AnalysisError("terms constructor arguments: {}".format(n))
 
 
+def d17_anchor_mark_armed_at_every_separator(chk: Check) -> None:
+    """After a segment separator the next character may be the `&` of an
+    Anchor segment; the flag that lets the `&` arm recognise it is set at
+    *every* separator, whether or not text was pending.  If it is set only
+    when the separator completes a plain key, `a[0].&b` (separator after a
+    self-closing segment) parses as the KEY `&b`, no longer equals
+    `a[0][&b]`, and `(a).&b` is refused."""
+    prog = chk.prog
+    chk.rule("C08-D17", "the separator arm of the parser arms the anchor "
+             "mark unconditionally", floor=1)
+    roles = parser_roles(prog)
+    fi, char, sep, loop = roles["fi"], roles["char"], roles["sep"], \
+        roles["loop"]
+    flag = None
+    for st in walk_local(loop):
+        if isinstance(st, ast.If) and isinstance(st.test, ast.BoolOp) and \
+                any(isinstance(v, ast.Compare) and src(v.left) == char and
+                    isinstance(v.comparators[0], ast.Constant) and
+                    v.comparators[0].value == "&" for v in st.test.values):
+            names = [v.id for v in st.test.values if isinstance(v, ast.Name)]
+            if names:
+                flag = names[0]
+    if flag is None:
+        raise AnalysisError("anchor-mark flag of the parser not found")
+    arms = [st for st in walk_local(loop) if isinstance(st, ast.If) and
+            "{} == {}".format(char, sep) in src(st.test)]
+    if not arms:
+        raise AnalysisError("separator arm of the parser not found")
+    for arm in arms:
+        direct = [a for a in arm.body if isinstance(a, ast.Assign) and
+                  src(a.targets[0]) == flag and src(a.value) == "True"]
+        text = "separator arm: {} = True".format(flag)
+        if direct:
+            chk.ok("C08-D17", fi, direct[0], text, "on every path")
+        else:
+            chk.fail("C08-D17", fi, arm, text,
+                     "the flag is armed only on some paths through the "
+                     "separator arm: an Anchor written after a bracketed, "
+                     "quoted or Collector segment (`a[0].&b`) is read as "
+                     "the key `&b`")
+
+
+def d18_every_occurrence_is_escaped(chk: Check) -> None:
+    """`ensure_escaped` escapes every bare occurrence of each symbol and
+    leaves the already escaped ones alone -- occurrence by occurrence (it
+    splits on the escaped form and escapes within the pieces).  A shortcut
+    that skips a symbol altogether once *one* escaped occurrence is present
+    leaves the bare ones bare: the key `b c\\ d` is rendered as it is and
+    re-parses as `bc d`."""
+    prog = chk.prog
+    chk.rule("C08-D18", "the per-symbol loop of ensure_escaped has no "
+             "continue / break (no symbol is skipped as a whole)", floor=1)
+    fi = prog.func("YAMLPath.ensure_escaped")
+    loops = [l for l in fi.node.body if isinstance(l, ast.For)]
+    if len(loops) != 1:
+        raise AnalysisError("symbol loop of ensure_escaped not found")
+    jumps = [j for j in walk_local(loops[0])
+             if isinstance(j, (ast.Continue, ast.Break)) and
+             next((a for a in ancestors(j) if isinstance(a, ast.For)),
+                  None) is loops[0]]
+    text = "ensure_escaped: for {} in {}".format(src(loops[0].target),
+                                                 src(loops[0].iter))
+    if jumps:
+        chk.fail("C08-D18", fi, jumps[0], text,
+                 "a symbol is skipped as a whole under some condition: its "
+                 "bare occurrences stay unescaped when an escaped one is "
+                 "present, so the rendered key splits or loses characters "
+                 "when it is parsed again")
+    else:
+        chk.ok("C08-D18", fi, loops[0], text, "every symbol, every piece")
+
+
 def run(chk: Check) -> None:
     d1_automaton(chk)
     d2_stringifier(chk)
@@ -1239,3 +1311,5 @@ def run(chk: Check) -> None:
     d14_only_self_escapes(chk)
     d15_closer_matches_opener(chk)
     d16_terms_store_what_they_are_given(chk)
+    d17_anchor_mark_armed_at_every_separator(chk)
+    d18_every_occurrence_is_escaped(chk)
